@@ -17,8 +17,15 @@ def parseIvZ (v : Json) : Except String IvZ := do
   | [c, s, e, f] => pure { c := ← c.getNat?, s := ← s.getInt?, e := ← e.getInt?, fwd := ← f.getBool? }
   | _ => throw "iv row"
 
-def getIvs (j : Json) : Except String (List Iv) := do (← getArr j "iv").mapM parseIv
 def getIvZs (j : Json) : Except String (List IvZ) := do (← getArr j "iv").mapM parseIvZ
+
+/-- the entries as natural-number intervals (entries the integer checks refuse are reported by `ivsRefused`) -/
+def getIvs (j : Json) : Except String (List Iv) := do
+  pure ((← getIvZs j).map (fun z => { c := z.c, s := z.s.toNat, e := z.e.toNat, fwd := z.fwd }))
+
+/-- some entry on an included chromosome is refused by the integer checks of the globalisation (`IvZ.checked`) -/
+def ivsRefused (j : Json) (ign : List Bool) : Except String Bool := do
+  pure ((← getIvZs j).any (fun z => !(ign.getD z.c false) && (IvZ.checked z).isNone))
 
 def getBoolList (j : Json) (k : String) : Except String (List Bool) := do
   (← getArr j k).mapM (·.getBool?)
@@ -62,7 +69,7 @@ def handle (op : String) (j : Json) : Except String Json := do
     pure (reply (optJ f m) (some (optJ f s)))
   | "l2g" =>
     let pts ← getPairs j "pts"
-    let m := Base.omap (fun (x : Nat × Int) => if x.2 < 0 then none else fromLocal isz (encodeIdx ign x.1) x.2.toNat) pts
+    let m := Base.omap (fun (x : Nat × Int) => fromLocalZ isz (encodeIdx ign x.1) x.2) pts
     let s := Base.omap (fun (x : Nat × Int) =>
       if 0 ≤ x.2 ∧ x.2 < (sizes.getD x.1 0 : Int) then
         some ((((sizes.zip ign).take x.1).filter (fun y => !y.2)).map (·.1) |>.sum |> (· + x.2.toNat)) else none) pts
@@ -90,13 +97,16 @@ def handle (op : String) (j : Json) : Except String Json := do
         some (obs chroms chroms.flatten)
     let sp := specMask ign ivs
     let sc := (List.range n).map (fun c => if op == "pileup" then specPileupChrom isz sp c else specMaskChrom isz sp c)
-    pure (reply (optJ id m) (some (obs sc sc.flatten)))
+    if path == "mem" && (← ivsRefused j ign) then pure (reply raised (some raised)) else
+    let okSpec := path != "mem" || sp.all (fun iv => iv.valid isz)
+    pure (reply (optJ id m) (some (if okSpec then obs sc sc.flatten else raised)))
   | "merge" =>
     let ivs ← getIvs j
     let d ← getNat j "d"
     let path := (getStr j "path").toOption.getD "mem"
     let mk := maskData ign ivs
     let sp := specMask ign ivs
+    if path == "mem" && (← ivsRefused j ign) then pure (reply raised (some raised)) else
     let m := if path == "mem" then mergeChecked d isz mk else mergeFixed d mk
     -- an interval outside its chromosome is not a valid input of the in-memory merge: an error is demanded
     let s := if path == "mem" && !(sp.all (fun iv => iv.valid isz) && sortedAdj (sp.map (fun iv => offset isz iv.c + iv.s)))
@@ -145,9 +155,11 @@ def handle (op : String) (j : Json) : Except String Json := do
     let vals ← getNatListList j "vals"
     let arrays := ((vals.zip ign).filter (fun y => !y.2)).map (·.1)
     let f := fun (rows : List (List Nat)) => Json.mkObj [("rows", natListList rows)]
+    if (← ivsRefused j ign) then pure (reply raised (some raised)) else
     let m := Base.omap (extractRow isz arrays.flatten stranded) (maskData ign ivs)
-    let s := (specMask ign ivs).map (specExtractRow arrays stranded)
-    pure (reply (optJ f m) (some (f s)))
+    let sp := specMask ign ivs
+    let s := if sp.all (fun iv => iv.valid isz) then f (sp.map (specExtractRow arrays stranded)) else raised
+    pure (reply (optJ f m) (some s))
   | "trackviews" =>
     let ivs ← getIvs j
     let vals ← getNatListList j "vals"
@@ -157,7 +169,7 @@ def handle (op : String) (j : Json) : Except String Json := do
     let mk := fun (chrom : List (List Nat)) (at_ bool_ : List Nat) =>
       Json.mkObj [("chrom", natListList chrom), ("data", natListList chrom), ("at", natList at_), ("bool", natList bool_),
         ("npsum", nat dense.sum), ("rt", natListList chrom)]
-    let m := match Base.omap (fun (x : Nat × Int) => extractAt isz dense (encodeIdx ign x.1) x.2.toNat) pts,
+    let m := match Base.omap (fun (x : Nat × Int) => if x.2 < 0 then none else extractAt isz dense (encodeIdx ign x.1) x.2.toNat) pts,
                    maskGlobal isz (maskData ign ivs) with
       | some a, some mask => some (mk (toDict isz dense) a (boolIndex dense mask))
       | _, _ => none
